@@ -128,7 +128,12 @@ def main(argv=None) -> int:
         if r['_status'] == 'crash':
             # A crash of the shard process itself.  The check decides whether a
             # native crash is a property violation (C03) via CRASH_IS_VIOLATION.
-            tail = r['_stderr'].strip().splitlines()[-12:]
+            lines = r['_stderr'].strip().splitlines()
+            tail = lines[-12:]
+            for j, ln in enumerate(lines):
+                if ln.startswith('Fatal Python error'):
+                    tail = [x for x in lines[j:j + 14] if not x.startswith('Extension modules')]
+                    break
             if getattr(mod, 'CRASH_IS_VIOLATION', False) and r['_rc'] not in (0, 1, 2):
                 violations.append({
                     'mechanism': 'native crash of the interpreter during the workload',
